@@ -19,7 +19,7 @@ EXTENDS Naturals, Integers, Sequences, TLC, Json
 CONSTANTS Kinds,      \* subset of {"child", "nonchild", "never"}
           Exits,      \* exit instants: odd naturals; 0 = gone/zombie before the call; 9999 = never exits
           Timeouts,   \* 0, odd naturals, 9999 = None, 9998 = negative (invalid)
-          Statuses,   \* subset of {"exit0", "exit7", "sigkill", "sigterm"}
+          Statuses,   \* subset of {"exit0", "exit7", "sigkill", "sigterm", "sigrt35"}
           Cap,        \* 800
           MaxT        \* horizon: behaviours whose clock passes it are cut (state constraint)
 
@@ -43,7 +43,8 @@ vars == <<cfg, now, pc, interval, sleeps, polls, lastPollAlive, lastPollAt, res,
 HasTO == cfg.timeout # None
 Ended == cfg.kind = "never" \/ (cfg.exitAt # Never /\ cfg.exitAt <= now)
 
-Code == [exit0 |-> 0, exit7 |-> 7, sigkill |-> -9, sigterm |-> -15]
+\* (sigrt35: a real-time signal, which has no member in Python's signal enum)
+Code == [exit0 |-> 0, exit7 |-> 7, sigkill |-> -9, sigterm |-> -15, sigrt35 |-> -35]
 
 Init == /\ cfg \in [kind : Kinds, exitAt : Exits, timeout : Timeouts, status : Statuses]
         /\ (cfg.kind = "never" => cfg.exitAt = 0 /\ cfg.status = "exit0")
